@@ -16,8 +16,16 @@ from math import floor, ceil
 from typing import Dict, Iterable, List, Optional, Tuple
 
 
+def _is_count(dim: str) -> bool:
+    """`<store>.size()` is the number of items a kernel store holds (Store.size returns len(self.items)): a
+    non-negative integer, like len(..)"""
+    return dim.endswith('.size()') and ' ' not in dim
+
+
 def is_integer_dim(dim: str, integer_dims: Iterable[str]) -> bool:
     if dim.startswith('len(') and dim.endswith(')') and dim.count('(') == 1:
+        return True
+    if _is_count(dim):
         return True
     for pat in integer_dims:
         if dim == pat:
@@ -106,7 +114,7 @@ def solve(lits: Iterable[tuple], integer_dims: Iterable[str] = ()) -> Optional[D
                 num[t].append((Fraction(0), '==', True))
     for dim, cons in num.items():
         integer = is_integer_dim(dim, integer_dims)
-        if dim.startswith('len('):
+        if dim.startswith('len(') or _is_count(dim):
             cons = cons + [(Fraction(0), '<', False)]             # len >= 0
         x = _sat_points(cons, integer)
         if x is None:
